@@ -144,9 +144,9 @@ def monitor(world, sc):
     hw = world.adj.outbuf_high_watermark
     if f["total_outbufs_len"]:
         probs.append("undelivered output: total_outbufs_len=%d" % f["total_outbufs_len"])
-    if f["queue"]:
+    if f["queue"] and f["in_map"]:
         probs.append("dispatcher queue holds %d unserviced task(s)" % f["queue"])
-    if f["requests"]:
+    if f["requests"] and f["in_map"]:
         probs.append("requests holds %d unserviced request(s)" % f["requests"])
     for name, where in pk.items():
         if where == "outbuf_cv":
@@ -171,8 +171,30 @@ def classify(sc, probs):
     return None
 
 
-def run_one(sc, schedule=(), policy=None, max_steps=6000):
-    w = make_world(sc, schedule, policy, max_steps)
+class Fair:
+    """Wraps a policy: after `after` decisions every thread other than the I/O
+    thread is preferred (workers and client run until they block), so that a
+    run which has not become quiescent by then is a genuine spin of the I/O
+    loop and not an artefact of an unfair random schedule (the I/O thread
+    polling a lock that an enabled worker holds)."""
+
+    def __init__(self, inner, after=1500):
+        self.inner = inner
+        self.after = after
+
+    def __call__(self, sched, enabled, cont):
+        if sched.step_no < self.after and self.inner is not None:
+            return self.inner(sched, enabled, cont)
+        if sched.step_no < self.after:
+            return cont if cont is not None else 0
+        for i, t in enumerate(enabled):
+            if t.name != "io":
+                return i
+        return 0
+
+
+def run_one(sc, schedule=(), policy=None, max_steps=4000):
+    w = make_world(sc, schedule, Fair(policy), max_steps)
     w.run()
     cls, probs = monitor(w, sc)
     return w, cls, probs
